@@ -195,12 +195,18 @@ pub struct SimChain {
     /// called (on the tower's chain thread) right before a block is handed out, i.e. between two
     /// block events: the E2 scheduler uses it as a scheduling point
     pub on_boundary: Option<Arc<dyn Fn() + Send + Sync>>,
+    /// shared with SimNode: the node process is down
+    pub down: Arc<std::sync::atomic::AtomicBool>,
 }
 
 impl SimChain {
     fn fault(&self, st: &mut ChainState, what: &str) -> Option<BlockSourceError> {
         let idx = st.src_calls;
         st.src_calls += 1;
+        if self.down.load(std::sync::atomic::Ordering::SeqCst) {
+            self.log.push(Ev::SrcFault { idx, what: format!("{what} (node down)") });
+            return Some(BlockSourceError::transient("connection refused (node down)"));
+        }
         if let Some((from, until, kind)) = st.src_fault {
             if idx >= from && idx < until {
                 self.log.push(Ev::SrcFault { idx, what: what.to_string() });
